@@ -525,11 +525,12 @@ class SFile(object):
         else:
             head = copy.deepcopy(header)
 
-        for key in ["_size", "_nrows", "_delim", "_shape", "_has_fields"]:
-            if key in head:
+        # the header is read case-insensitively, so the reserved names are
+        # removed in any spelling
+        reserved = ["_size", "_nrows", "_delim", "_shape", "_has_fields"]
+        for key in list(head.keys()):
+            if isstring(key) and key.lower() in reserved:
                 del head[key]
-            if key.upper() in head:
-                del head[key.upper()]
 
         descr = data.dtype.descr
 
